@@ -15,6 +15,7 @@ REQUIRED = ['ctor-int', 'ctor-list', 'ctor-bytes', 'ctor-bits', 'conv:int', 'con
 NSHARDS = 13
 SAN = {'quick': (3, 8), 'thorough': (3, 4)}
 S3_EVERY = 50
+S7 = ('thorough',)          # the repository's own suite re-run under S1/S3 as a second workload
 
 def selftest():
     # the README examples
